@@ -1,3 +1,90 @@
-// unit validation_results: harnesses for sdk/src/validation_results.rs (included by the cfg(kani) hook at the end of that file)
+// unit validation_results: sdk/src/validation_results.rs (included by the cfg(kani) hook at the end of that file)
+// C04: ValidationResults::validation_state == the specification taken from the property statement (bounded lists)
+//   Valid   <=> active manifest present, claimSignature.validated and claimSignature.insideValidity among the successes,
+//               and every failure (active manifest + ingredient deltas) is tolerated
+//   Trusted <=> Valid, signingCredential.trusted among the successes and NO failure at all
+//   tolerated(c) <=> c == "signingCredential.untrusted" or c starts with "cawg.x509."
 #[allow(unused_imports)]
 use super::*;
+
+
+    // code universe: indices 0..6
+    const CODES: [&str; 7] = [
+        validation_status::CLAIM_SIGNATURE_VALIDATED,
+        validation_status::CLAIM_SIGNATURE_INSIDE_VALIDITY,
+        validation_status::SIGNING_CREDENTIAL_TRUSTED,
+        validation_status::SIGNING_CREDENTIAL_UNTRUSTED,
+        "cawg.x509.signature.mismatch",
+        "assertion.dataHash.mismatch",
+        "zz.unknown",
+    ];
+    fn tolerated(i: u8) -> bool { i == 3 || i == 4 }
+
+    fn any_codes(out: &mut Vec<ValidationStatus>, idx: &mut [u8; 2]) -> usize {
+        let n: usize = kani::any();
+        kani::assume(n <= 2);
+        let mut k = 0;
+        while k < n {
+            let c: u8 = kani::any();
+            kani::assume((c as usize) < CODES.len());
+            idx[k] = c;
+            out.push(ValidationStatus::new(CODES[c as usize]));
+            k += 1;
+        }
+        n
+    }
+
+    #[kani::proof]
+    #[kani::unwind(4)]
+    fn c04_state_matches_spec_active_only() {
+        let mut sc = StatusCodes::default();
+        let mut si = [0u8; 2];
+        let mut fi = [0u8; 2];
+        let ns = any_codes(&mut sc.success, &mut si);
+        let nf = any_codes(&mut sc.failure, &mut fi);
+        let has_active: bool = kani::any();
+        let mut vr = ValidationResults::default();
+        if has_active { vr = vr.add_active_manifest(sc); }
+        let st = vr.validation_state();
+
+        let has = |c: u8| -> bool { (ns > 0 && si[0] == c) || (ns > 1 && si[1] == c) };
+        let all_tol = (nf < 1 || tolerated(fi[0])) && (nf < 2 || tolerated(fi[1]));
+        let valid = has_active && has(0) && has(1) && all_tol;
+        let trusted = valid && has(2) && nf == 0;
+        let spec = if trusted { ValidationState::Trusted } else if valid { ValidationState::Valid } else { ValidationState::Invalid };
+        assert!(st == spec);
+    }
+
+    fn spec_state(has_active: bool, s: &[u8], f_all: &[u8]) -> ValidationState {
+        let has = |c: u8| s.iter().any(|x| *x == c);
+        let all_tol = f_all.iter().all(|x| tolerated(*x));
+        let valid = has_active && has(0) && has(1) && all_tol;
+        let trusted = valid && has(2) && f_all.is_empty();
+        if trusted { ValidationState::Trusted } else if valid { ValidationState::Valid } else { ValidationState::Invalid }
+    }
+
+    #[kani::proof]
+    #[kani::unwind(4)]
+    fn c04_state_matches_spec_with_delta() {
+        // active: 3 success slots (symbolic codes), 1 failure slot optional; one ingredient delta with 0/1 failure
+        let mut sc = StatusCodes::default();
+        let mut sidx = [0u8; 3];
+        let mut k = 0;
+        while k < 3 { let c: u8 = kani::any(); kani::assume((c as usize) < CODES.len()); sidx[k] = c; sc.success.push(ValidationStatus::new(CODES[c as usize])); k += 1; }
+        let af: bool = kani::any(); let afc: u8 = kani::any(); kani::assume((afc as usize) < CODES.len());
+        if af { sc.failure.push(ValidationStatus::new(CODES[afc as usize])); }
+        let mut vr = ValidationResults::default().add_active_manifest(sc);
+        let df: bool = kani::any(); let dfc: u8 = kani::any(); kani::assume((dfc as usize) < CODES.len());
+        let has_delta: bool = kani::any();
+        if has_delta {
+            let mut d = StatusCodes::default();
+            if df { d.failure.push(ValidationStatus::new(CODES[dfc as usize])); }
+            vr = vr.add_ingredient_delta(IngredientDeltaValidationResult::new("u", d));
+        }
+        let st = vr.validation_state();
+        let mut fall: Vec<u8> = Vec::new();
+        if af { fall.push(afc); }
+        if has_delta && df { fall.push(dfc); }
+        assert!(st == spec_state(true, &sidx, &fall));
+        std::mem::forget(vr);
+    }
